@@ -36,7 +36,7 @@ prop('C02', [k('k_short', 'C02'), k('k_contracts', 'C02')], [FOREIGN], KANI_TB)
 prop('C03', [k('k_short', 'C03')], [FOREIGN], KANI_TB)
 prop('C06', [k('k_short', 'C06')], [FOREIGN], KANI_TB)
 prop('C19', [k('k_serde', 'C19', 'serde')], ['ill-shaped inputs beyond arbitrary integer/bool/unit tokens (strings, floats, nested containers) and format-specific behaviour of concrete serde formats are not driven', 'derive(Serialize) emits fields in declaration order'], KANI_TB)
-prop('C04', [k('k_newtype', 'C04'), k('k_newtype', 'C04', 'none'), k('k_contracts', 'C04'), v('v_msg', 'C04'), v('v_cc14', 'C04'), v('v_nrpn', 'C04'), v('v_poll', 'C04')],
+prop('C04', [k('k_newtype', 'C04'), k('k_newtype', 'C04', 'none'), k('k_contracts', 'C04'), k('k_short', 'C04'), v('v_msg', 'C04'), v('v_cc14', 'C04'), v('v_nrpn', 'C04'), v('v_poll', 'C04')],
      ['restricted-integer inputs of every harness / contract are assumed in range (type invariant as precondition)', B1], VERUS_TB + KANI_TB)
 prop('C05', [k('k_newtype', 'C05'), k('k_contracts', 'C05')], ['Hash agreement with the numeric value is not examined (derived)'], KANI_TB)
 prop('C07', [v('v_cc14', 'C07'), k('k_bridge', 'C07')], [B1, B3], VERUS_TB)
